@@ -3,6 +3,7 @@ import re
 
 from aq import sym
 from aq.core import Property
+from aq.facts import callee_name, strip_generics
 from aq.sym import show, strip_after
 from aq.util import call_args, cpaths, fp, has_call, calls_in, in_test_code, ob, paths, who_calls, const_int, const_str
 
@@ -259,8 +260,14 @@ def totals_survivors(fx):
             if any(b.cfg.edge_dominates(e, i) for e in allows_edges):
                 guarded = True
     yield ob("R-C20-4", "totals#udp#peers_of_forbidden_torrents", adds > 0 and guarded, b, None,
-             "peer total is accumulated in phase 1 on %d path-sites without consulting the access list, although phase 2 drops forbidden torrents: after a list reload the reported "
-             "peer total exceeds what is stored (until the next pass)" % adds, {"sites": adds})
+             ("peer total is accumulated in phase 1 on %d site(s), each on the true edge of AccessList::allows: peers of torrents that phase 2 drops as forbidden are not counted" % adds)
+             if adds > 0 and guarded else
+             ("peer total is accumulated in phase 1 on %d path-sites without consulting the access list, although phase 2 drops forbidden torrents: after a list reload the reported "
+              "peer total exceeds what is stored (until the next pass)" % adds), {"sites": adds})
+    # the export line of a torrent is written in the same loop: it must sit behind the same test
+    wr = [i for i, t in b.calls(r"Write>::write_fmt$|::write_fmt$")]
+    yield ob("R-C20-4", "export#udp#only_permitted_torrents", bool(wr) and all(any(b.cfg.edge_dominates(e, i) for e in allows_edges) for i in wr), b, None,
+             "%d export write(s) in the cleaning loop, each on the true edge of AccessList::allows (a torrent dropped in this pass is not exported)" % len(wr), {"writes": len(wr)})
     # phase 2 drops a forbidden torrent with its peers without PeerRemoved messages
     clo = [c for c in fx.children(b) if any(True for _ in c.calls(r"AccessList::allows$"))]
     sends = False
@@ -269,7 +276,52 @@ def totals_survivors(fx):
             neg = any((sym.atom_bool(a) or (None, None))[1] is False and "AccessList::allows" in show(a["discr"]) for a in p.atoms)
             if neg and (p.calls(r"Vec.*::push$") or p.calls(r"try_send$")):
                 sends = True
-    yield ob("R-C20-4", "tally#udp#forbidden_torrent_peers_not_removed", sends or guarded, b, None,
+    # repaired shape: on the forbidden edge of phase 1 the peers are removed by one call that announces every stored peer
+    # (both representations) as PeerRemoved when peer_clients is on (whether the map is also emptied there does not matter:
+    # phase 2 drops the torrent)
+    emptier = None
+    emptier_ok = False
+    detail = ""
+    if guarded:
+        false_edges = []
+        for i, t in b.calls(r"AccessList::allows$"):
+            sw = b.blocks[t["t"]]["term"] if t.get("t") is not None else None
+            if sw and sw["k"] == "switch":
+                false_edges += [(t["t"], tgt) for val, tgt in sw["targets"] if val == 0]
+        cands = set()
+        for i, t in b.calls(r"^aquatic_udp::swarm::"):
+            if any(b.cfg.edge_dominates(e, i) for e in false_edges):
+                cands.add(strip_generics(callee_name(t)))
+        cands = sorted(c for c in cands if fx.fn_opt(c) is not None)
+        if len(cands) == 1:
+            emptier = fx.fn(cands[0])
+            arms = set()
+            bad = []
+            for p in cpaths(fx, emptier):
+                if p.end != "return":
+                    continue
+                on = [sym.atom_bool(a) for a in p.atoms]
+                on = [x for x in on if x and show(strip_after(x[0])) == "config.statistics.peer_clients"]
+                if not on or on[0][1] is not True:
+                    continue
+                var = [sym.atom_variant(fx, a) for a in p.atoms]
+                var = [v[1][0] for v in var if v and v[2] and show(strip_after(v[0])) == "self" and v[1]]
+                entered = [sym.atom_variant(fx, a) for a in p.atoms]
+                entered = [v for v in entered if v and v[2] and v[1] == ["Some"] and "Iterator>::next(" in show(v[0])]
+                pushes = [show(strip_after(e[2][1])) for e in p.calls(r"Vec.*::push$")]
+                if entered:
+                    good = [x for x in pushes if x.startswith("StatisticsMessage::PeerRemoved{0: (") and x.endswith(".peer_id}") and "Iterator>::next(" in x
+                            and "(self as %s)" % (var[0] if var else "?") in x]
+                    if len(good) != len(entered) or len(pushes) != len(good):
+                        bad.append("%s arm: %d element(s) visited, pushes %s" % (var[:1], len(entered), [x[:50] for x in pushes]))
+                    elif var:
+                        arms.add(var[0])
+            emptier_ok = arms == {"Small", "Large"} and not bad
+            detail = "%s: arms announcing every visited peer as PeerRemoved %s %s" % (emptier.short.split("::")[-1], sorted(arms), bad[:2])
+        else:
+            detail = "calls on the forbidden edge: %s" % cands
+    yield ob("R-C20-4", "tally#udp#forbidden_torrent_peers_not_removed", sends or (guarded and emptier_ok), b, None,
+             ("forbidden torrents lose their peers in phase 1 through " + detail) if guarded else
              "a torrent dropped because the access list forbids it vanishes with its peers but no PeerRemoved is emitted for them: per-client tallies stay too high", {})
     # torrent total = len of each shard after retain
     rets = set()
